@@ -89,6 +89,10 @@ func openFile(w *world.World, root cid.Cid, via int) (datamodel.Node, string, er
 		fn, err := file.NewUnixFSFile(context.Background(), n, &w.LS)
 		return fn, "file.NewUnixFSFile", err
 	}
+	if via == 2 {
+		fn, err := w.LS.KnownReifiers["unixfs-preload"](ipld.LinkContext{}, n, &w.LS)
+		return fn, "unixfs-preload reifier", err
+	}
 	fn, err := unixfsnode.Reify(ipld.LinkContext{}, n, &w.LS)
 	return fn, "unixfsnode.Reify", err
 }
@@ -98,7 +102,7 @@ func (c04) Run(ts *tape.Set, tier Tier) *Result {
 	shape := ts.T("shape")
 	spec := gen.DrawFileSpec(shape, gen.FileOpts{MaxSize: 16 << 10, AllowOdd: true, AllowNoSizes: true})
 	nReaders := 1 + shape.Pick(3, 3, 1)
-	via := shape.Intn(2)
+	via := shape.Intn(3)
 	fragMode := shape.Pick(2, 1, 1, 1)
 	fragSeed := shape.Raw()
 	maxOps := 60
